@@ -1,6 +1,8 @@
 CONSTANTS
   MaxReqs = @MAXREQS@
   Classes = @CLASSES@
+  SD = @SD@
+  MaxReqsSD = @MAXREQSSD@
 INIT Init
 NEXT Next
 INVARIANTS MSatisfiesP Emit
